@@ -278,10 +278,8 @@ func ruleC05(c *Ctx, r *Report) {
 
 	// ---- R3 replacement text
 	r.Floor("C05-R3", 2, "stores of the replacement global + the flag wire")
-	if an := c.anchors(); len(an.Problems) == 0 {
+	if an := c.anchors(); requireAnchors(r, an, "C05-R3", "redact") {
 		flagWireRule(c, r, an, "C05-R3", []flagWire{{"replacement", "SetRedactedString", "redactedString"}})
-	} else {
-		r.Undecided("C05-R3", "anchors", "-", strings.Join(an.Problems, "; "))
 	}
 	if g := c.GlobalByRole("redactedString"); g != nil {
 		for _, f := range c.SortedFuncs() {
